@@ -21,7 +21,11 @@ def sh(cmd, **kw):
 def main():
     d = os.path.abspath(sys.argv[1])
     props = sys.argv[2:]
-    wt = "/tmp/seed_wt_%d" % os.getpid()
+    # a fixed path when free: stageleft names staged macros after the checkout path, so generated
+    # crates cached in the -alt target dirs are only reusable for the same path
+    wt = "/tmp/seed_wt"
+    if os.path.exists(wt):
+        wt = "/tmp/seed_wt_%d" % os.getpid()
     r = sh("git -C /repo worktree add --detach %s HEAD" % wt)
     if r.returncode != 0:
         print(r.stdout)
